@@ -495,16 +495,22 @@ Definition norm_attr (d : tdef) (kv : name * str) : name * str :=
 
 (* Known deviations of the implementation, each of which can be switched off in the comparison so that a
    difference is attributed to exactly the deviations needed to explain it (Model/XsdCorr.v: doc_quirks):
-     q_nil     empty instances of nillable declarations (xsi:nil or not) are ignored, xsi:nil itself too
-     q_empty   simple-typed elements with empty content, every instance of a simple-typed element declared with a
-               default or fixed value, and declared attributes with an empty value are ignored
+     q_nil     instances of nillable declarations are ignored altogether, and so is the xsi:nil attribute
+     q_empty   simple-typed elements with empty content that have NO default / fixed value, and declared attributes
+               with an empty value, are ignored
+     q_edef    (input side only) empty instances of simple-typed elements that DO declare a default / fixed value
+               are MARKED: the output may lack them ("<e/> was lost") or have them; an element the input does not
+               have at all is never excused
+     q_mixed   character data next to child elements is ignored (mixed content, and text that ended up inside an
+               element-only child); the element children are still compared
      q_union   union-typed elements and attributes: only their presence is compared, not their value
      q_alias   q_alias t q: under type t the child q shares a compound field with other primitive-typed
                choices (the serializer picks the choice by value, so names can be confused): only the
                number of such children is compared *)
-Record quirks := mk_quirks { q_nil : bool; q_empty : bool; q_union : bool; q_alias : nat -> name -> bool }.
+Record quirks := mk_quirks { q_nil : bool; q_empty : bool; q_union : bool; q_alias : nat -> name -> bool; q_edef : bool;
+                             q_mixed : bool }.
 Definition no_alias : nat -> name -> bool := fun _ _ => false.
-Definition no_quirks : quirks := mk_quirks false false false no_alias.
+Definition no_quirks : quirks := mk_quirks false false false no_alias false false.
 
 Definition is_list_type (t : stype) : bool := match t with STList _ => true | _ => false end.
 Fixpoint is_union_type (t : stype) : bool :=
@@ -541,16 +547,26 @@ Definition ndoc_empty (n : ndoc) : bool :=
 Definition simple_of (d : tdef) : option stype := match td_content d with XCSimple st => Some st | _ => None end.
 
 (* what a normalised child instance becomes under the quirks *)
+(* an input instance that may be missing from the output without blame (q_edef): marked, not dropped *)
+Definition EDEF_MARK : name := [0%N; 101%N].
+Definition mark_edef (n : ndoc) : ndoc :=
+  match n with NElem q ty attrs kids => NElem q ty ((EDEF_MARK, []) :: attrs) kids | _ => n end.
+Definition is_marked (n : ndoc) : bool :=
+  match n with NElem _ _ attrs _ => existsb (fun kv => name_eqb (fst kv) EDEF_MARK) attrs | _ => false end.
+Definition unmark (attrs : list (name * str)) : list (name * str) :=
+  filter (fun kv => negb (name_eqb (fst kv) EDEF_MARK)) attrs.
+
 Definition raw_empty (k : xdoc) : bool :=
   match k with DElem _ _ ks => negb (has_elems ks) && ws_only (text_of ks) | DText _ => false end.
 
 Definition quirk_child (qk : quirks) (s : schema) (t : nat) (x : xdecl) (k : xdoc) (nk : ndoc) : list ndoc :=
   let st := simple_of (get_type s (xd_type x)) in
   if q_alias qk t (xd_name x) then [NElem ALIAS None [] []]
-  else if q_nil qk && xd_nillable x && ndoc_empty nk then []
-  else if q_empty qk && match st with
-                        | Some _ => raw_empty k || match xd_default x, xd_fixed x with None, None => false | _, _ => true end
-                        | None => false end then []
+  else if q_nil qk && xd_nillable x then []
+  else if q_empty qk && raw_empty k && match st, xd_default x, xd_fixed x with Some _, None, None => true | _, _, _ => false end
+       then []
+  else if q_edef qk && raw_empty k && match st, xd_default x, xd_fixed x with Some _, None, None | None, _, _ => false | _, _, _ => true end
+       then [mark_edef nk]
   else if q_union qk && match st with Some u => is_union_type u | None => false end then [NElem (xd_name x) None [] []]
   else [nk].
 
@@ -575,10 +591,11 @@ Fixpoint norm (qk : quirks) (fuel : nat) (s : schema) (t : nat) (dflt : option s
                     let txt' := match txt, dflt with [], Some v => v | _, _ => txt end in
                     NElem q (Some t') attrs' [NText (if q_union qk && is_union_type st then [] else txt')]
                 | XCElems _ | XCMixed _ =>
-                    let keep_text := match td_content d with XCMixed _ => true | _ => false end in
+                    let mixed := match td_content d with XCMixed _ => true | _ => false end in
+                    let keep_text := mixed && negb (q_mixed qk) in
                     let ks := concat (map (fun k => match k with
                                                     | DText x => if keep_text then [NText x] else
-                                                                 if ws_only x then [] else [NText x]
+                                                                 if ws_only x || q_mixed qk then [] else [NText x]
                                                     | DElem cq _ _ =>
                                                         match find_decl d cq with
                                                         | Some x => quirk_child qk s t' x k
@@ -628,6 +645,16 @@ Definition typed_attr_eqb (len : bool) (d : tdef) (x y : name * str) : bool :=
   | None => str_eqb (snd x) (snd y)
   end.
 
+(* every item of b is matched by a distinct item of a; what is left of a must be marked *)
+Fixpoint perm_sub {A} (e : A -> A -> bool) (marked : A -> bool) (a b : list A) : bool :=
+  match b with
+  | [] => forallb marked a
+  | y :: r => match remove_first (fun y' x => e x y') y a with
+              | Some a' => perm_sub e marked a' r
+              | None => false
+              end
+  end.
+
 Fixpoint ndoc_eqb_gen (len : bool) (fuel : nat) (s : schema) (ordered : option nat -> bool) (a b : ndoc) : bool :=
   match fuel with
   | O => false
@@ -638,17 +665,17 @@ Fixpoint ndoc_eqb_gen (len : bool) (fuel : nat) (s : schema) (ordered : option n
       | NElem q ty xs ks, NElem q' ty' ys ks' =>
           name_eqb q q' && opt_eqb Nat.eqb ty ty' &&
           match ty with
-          | None => perm_eqb attr_pair_eqb xs ys && list_eqb (ndoc_eqb_gen len f s ordered) ks ks'
+          | None => perm_eqb attr_pair_eqb (unmark xs) ys && list_eqb (ndoc_eqb_gen len f s ordered) ks ks'
           | Some t =>
               let d := get_type s t in
-              perm_eqb (typed_attr_eqb len d) xs ys &&
+              perm_eqb (typed_attr_eqb len d) (unmark xs) ys &&
               match td_content d, ks, ks' with
               | XCSimple st, [NText x], [NText y] => value_eqb_gen len st x y
               | XCSimple _, [], [] => true
               | XCSimple _, _, _ => false
               | _, _, _ =>
                   if ordered ty then list_eqb (ndoc_eqb_gen len f s ordered) ks ks'
-                  else perm_eqb (ndoc_eqb_gen len f s ordered) ks ks'
+                  else perm_sub (ndoc_eqb_gen len f s ordered) is_marked ks ks'
               end
           end
       | _, _ => false
